@@ -519,6 +519,47 @@ fn main() {
         cx.rec.end_case(class, true);
     }
 
+    // ---- B2: the same gate after the block has been reconstructed completely: a conflicting validly signed slice
+    // arriving *after* completion is still equivocation (slices carry an empty transaction list: 8 zero bytes)
+    let n_done = if args.thorough { 200 } else { 20 };
+    for c in 0..n_done {
+        cx.sets.clear();
+        cx.class = 0;
+        cx.rec.begin_case("gate-complete");
+        let slot = 2 + rng.below(1 << 20);
+        let nslices = 1 + rng.below(3) as usize;
+        for j in 0..nslices {
+            let parent = if j == 0 { Some((slot - 1, rng.below(200))) } else { None };
+            cx.mk(1, slot, j, j + 1 == nslices, parent, 8, 0, 0);
+        }
+        let target = rng.below(nslices as u64) as usize;
+        let tparent = if target == 0 { Some((slot - 1, 201 + rng.below(50))) } else { None };
+        let conflict = cx.mk(1, slot, target, target + 1 == nslices, tparent, 8, 0, 0 + (target != 0) as u64);
+        cx.bs_new();
+        let mut feed: Vec<(usize, usize)> = Vec::new();
+        for j in 0..nslices {
+            let mut idx: Vec<usize> = (0..64).collect();
+            rng.shuffle(&mut idx);
+            for &i in idx.iter().take(32 + rng.below(20) as usize) { feed.push((j, i)); }
+        }
+        rng.shuffle(&mut feed);
+        let mut flagged_in_honest = false;
+        for &(sidx, i) in &feed {
+            let out = cx.bs_add(sidx, i, rng.chance(1, 2), 1, &[], &mut rng);
+            flagged_in_honest |= !out.starts_with("pass flag 0");
+        }
+        cx.rec.oracle(!flagged_in_honest, "honest-leader-flagged", || format!("gate-complete case {c}: the shreds of one consistent complete block (slot {slot}, {nslices} slices) made the blockstore reject a shred or flag the leader"));
+        let complete = { let (bs, _) = cx.bs.as_ref().expect("bs"); bs.disseminated_block_hash(Slot::new(slot)).is_some() };
+        cx.rec.count(&format!("gate-complete:block-reconstructed={complete}"));
+        // the conflicting slice, straight to the blockstore (no cached commitment handed to try_new)
+        let o1 = cx.bs_add(conflict, rng.below(64) as usize, false, 1, &[], &mut rng);
+        let o2 = cx.bs_add(0, 63, false, 1, &[], &mut rng);
+        let flagged = cx.flagged;
+        cx.rec.oracle(!o1.starts_with("pass") && flagged, "conflicting-commitment-not-reported", || format!("gate-complete case {c}: after slot {slot} was reconstructed ({nslices} slices, complete={complete}) a different validly signed slice {target} of the same leader was answered `{o1}` (next shred `{o2}`), InvalidBlock emitted: {flagged}"));
+        let class = cx.class;
+        cx.rec.end_case(class, true);
+    }
+
     // ---- C (oracle only): a relay flips the unauthenticated data/coding tag of one shred of a correct leader
     let n_flip = if args.thorough { 60 } else { 8 };
     for c in 0..n_flip {
@@ -531,13 +572,18 @@ fn main() {
         std::mem::swap(&mut recq, &mut cx.rec); // `mk` records a step; keep this scenario out of the compared stream
         let set = cx.mk(1, slot, 1, false, None, 100 + rng.below(500) as usize, rng.below(256), rng.below(256));
         std::mem::swap(&mut recq, &mut cx.rec);
-        let victim = rng.below(32) as usize;
+        // which 32 of the 64 shreds arrive: data only, a window over the data/coding boundary, or coding only;
+        // the victim is anywhere in it, the boundary indices 31 / 32 are always tried
+        let start = [0usize, 1, 16, 31, 32][c % 5].min(32);
+        let victim = match c % 4 { 0 => 31usize.clamp(start, start + 31), 1 => 32usize.clamp(start, start + 31), _ => start + rng.below(32) as usize };
         let tag = 1 - cx.sets[set].wires[victim].tag;
         let mut outs = Vec::new();
-        for i in 0..32 {
+        for i in start..start + 32 {
             let muts = if i == victim { vec![Mut::Tag(tag)] } else { vec![] };
             outs.push(cx.bs_feed(set, i, true, 1, &muts, &mut rng));
         }
+        let panicked = outs.iter().any(|o| o == "panic");
+        cx.rec.oracle(!panicked, "tagflip-panics", || format!("tag flip: shreds {start}..{} of a correct leader's slice (slot {slot}), shred {victim} with its data/coding tag flipped by a relay: the blockstore panicked while reconstructing", start + 32));
         let flagged = cx.flagged;
         cx.rec.count(if flagged { "tagflip:leader-flagged" } else { "tagflip:harmless" });
         cx.rec.oracle(!flagged, "honest-leader-flagged", || {
